@@ -812,7 +812,7 @@ itrf2008_to_itrf94 = iers2trans(
 
 itrf2008_to_itrf93 = iers2trans(
     itrf_from='ITRF2008', itrf_to='ITRF93', ref_epoch=date(2000, 1, 1),
-    tx=4-24.0, ty=2.4, tz=-38.6,
+    tx=-24.0, ty=2.4, tz=-38.6,
     sc=3.41,
     rx=-1.71, ry=-1.48, rz=-0.30,
     d_tx=-2.8, d_ty=-0.1, d_tz=-2.4,
